@@ -15,7 +15,7 @@ from vf.ref import ips
 LEVEL = "exploration"
 RULE = (
     "one case per write history (1-6 blocks; lengths 0,1,2 and k*65535-1..k*65535+2; addresses at 0, 0x1FF/0x200, 64K edges, "
-    "0x454F45..47, 2^24 edges and beyond, negative; copier header on/off; a third of the blocks placed relative to the previous one (adjacent, overlapping from below, one copier header apart), some blocks written again unchanged after other writes, a quarter of the histories hand over a buffer that the caller overwrites after the call, 2 % are sessions of 300-2500 small blocks; content incl. runs and 'EOF'/'PATCH'); "
+    "0x454F45..47, 2^24 edges and beyond, negative; copier header on/off; a third of the blocks placed relative to the previous one (adjacent, overlapping from below, one copier header apart), some blocks written again unchanged after other writes, a quarter of the histories hand over a buffer that the caller overwrites after the call, 2 % are sessions of 300-2500 small blocks; every 6th case uses two writers that are open at the same time with interleaved writes; content incl. runs and 'EOF'/'PATCH'); "
     "distinct by hash of (copier, [(address, length, content digest)]); non-trivial = at least one non-empty block reached the oracle"
 )
 ASSUMPTIONS = [
@@ -221,10 +221,74 @@ def run_history(res: Res, hist: dict) -> None:
     res.count("bytes_compared", total)
 
 
+def run_pair(res: Res, pair: dict) -> None:
+    """Two writers open at the same time (a build script producing the plain and the copier-header patch in one pass, or two
+    unrelated patches): each file holds its own writes only."""
+    from a816.writers import IPSWriter
+
+    bufs = [io.BytesIO(), io.BytesIO()]
+    ws = [IPSWriter(bufs[k], pair["copier"][k]) for k in (0, 1)]
+    exp = [ips.Image(), ips.Image()]
+    res.case(("pair", tuple(pair["copier"]), tuple(map(tuple, pair["ops"]))), True)
+    try:
+        for op in pair["ops"]:
+            k = op[0]
+            if op[1] == "begin":
+                ws[k].begin()
+            elif op[1] == "end":
+                ws[k].end()
+            else:
+                _, _, addr, length, seed = op
+                data = gen_content(random.Random(seed), length)
+                ws[k].write_block(data, addr)
+                exp[k].write(addr + (0x200 if pair["copier"][k] else 0), data)
+    except Exception as e:  # noqa: BLE001
+        res.violate("writers-interfere", f"two writers used side by side: {e!r}", pair)
+        return
+    for k in (0, 1):
+        try:
+            records, trailing = ips.parse(bufs[k].getvalue())
+        except ips.Malformed as e:
+            res.violate("writers-interfere", f"two writers open at once: file {k} is malformed: {e}", pair)
+            return
+        got = ips.Image()
+        for off, data, _ in records:
+            got.write(off, data)
+        if trailing or got != exp[k]:
+            res.violate("writers-interfere", f"two writers open at once: file {k} does not patch exactly its own writes: {got.first_difference(exp[k])}", pair)
+            return
+    res.count("writer_pairs_judged")
+
+
+def gen_pair(rng: random.Random) -> dict:
+    ops: list = []
+    pending = {0: [], 1: []}
+    for k in (0, 1):
+        for _ in range(rng.randint(1, 5)):
+            ln = rng.choice([1, 2, 3, 40, 300, 65535, 65536, 70000]) if rng.random() < 0.9 else 0
+            pending[k].append([k, "write", rng.choice([0, 0x200, 0x8000, 0x10000, 0x123456, rng.randrange(1 << 22)]), ln, rng.getrandbits(32)])
+    # both begin before either ends; the writes are interleaved at random
+    order = [[0, "begin"], [1, "begin"]]
+    rng.shuffle(order)
+    ops += order
+    while pending[0] or pending[1]:
+        k = rng.choice([k for k in (0, 1) if pending[k]])
+        ops.append(pending[k].pop(0))
+        if rng.random() < 0.1 and not pending[k] and [k, "end"] not in ops:
+            ops.append([k, "end"])
+    for k in rng.sample([0, 1], 2):
+        if [k, "end"] not in ops:
+            ops.append([k, "end"])
+    return {"pair": True, "copier": [rng.random() < 0.5, rng.random() < 0.5], "ops": ops}
+
+
 def run_shard(shard: dict) -> Res:
     res = Res()
     rng = random.Random(shard["seed"])
     for i in range(shard["n"]):
+        if i % 6 == 5:
+            run_pair(res, gen_pair(rng))
+            continue
         hist = gen_history(rng, shard["kmax"])
         run_history(res, hist)
         if i < 2:
@@ -234,5 +298,8 @@ def run_shard(shard: dict) -> Res:
 
 def replay(w: dict) -> Res:
     res = Res()
+    if w.get("pair"):
+        run_pair(res, w)
+        return res
     run_history(res, w)
     return res
